@@ -479,6 +479,55 @@ impl DerefMut for Ram {
     }
 }
 
+/// Verification hook: the private registers of a [`Bus`].
+#[cfg(feature = "verif-hooks")]
+#[derive(Debug, Clone, PartialEq, Eq)]
+pub struct VerifBus {
+    pub micr: u8,
+    pub misr: u8,
+    pub ucr: u8,
+    pub usr: u8,
+    pub uart_send: u8,
+    pub uart_recv: u8,
+    pub timer_enabled: bool,
+    pub timer_div1: usize,
+    pub timer_div2: usize,
+    pub timer_div3: usize,
+}
+
+#[cfg(feature = "verif-hooks")]
+impl Bus {
+    /// Verification hook: read the private registers.
+    pub fn verif_snapshot(&self) -> VerifBus {
+        VerifBus {
+            micr: self.micr.bits(),
+            misr: self.misr.bits(),
+            ucr: self.ucr.bits(),
+            usr: self.usr.bits(),
+            uart_send: self.uart_send,
+            uart_recv: self.uart_recv,
+            timer_enabled: self.int_timer.enabled,
+            timer_div1: self.int_timer.div1,
+            timer_div2: self.int_timer.div2,
+            timer_div3: self.int_timer.div3,
+        }
+    }
+
+    /// Verification hook: overwrite the private registers.
+    pub fn verif_restore(&mut self, s: &VerifBus) {
+        self.micr = MICR::from_bits_truncate(s.micr);
+        self.misr = MISR::from_bits_truncate(s.misr);
+        self.ucr = UCR::from_bits_truncate(s.ucr);
+        self.usr = USR::from_bits_truncate(s.usr);
+        self.uart_send = s.uart_send;
+        self.uart_recv = s.uart_recv;
+        self.int_timer.enabled = s.timer_enabled;
+        self.int_timer.div1 = s.timer_div1;
+        self.int_timer.div2 = s.timer_div2;
+        self.int_timer.div3 = s.timer_div3;
+    }
+}
+
 #[cfg(test)]
 prop_compose! {
     fn arbitrary_ram()(num in any::<u8>()) -> Ram {
